@@ -65,6 +65,15 @@ def gen_invalid(rng, t):
             extra.append([(m[0] + nx * 6, m[1] + ny * 6), (m[0] + nx * g, m[1] + ny * g)])  # dangling under/overshoot
         elif r < 0.7:
             extra.append([(l[0][0] + 1.0, l[0][1] + 1.0), (l[0][0] + 1.0 + 1.5 * t, l[0][1] + 1.0)])  # tiny trace
+        elif r < 0.85:
+            # mirror image inside the same bounding box: same bounds, same length, same vertex count, different trace
+            xs, ys = [p[0] for p in l], [p[1] for p in l]
+            if rng.random() < 0.5:
+                m = [(p[0], min(ys) + max(ys) - p[1]) for p in l]
+            else:
+                m = [(min(xs) + max(xs) - p[0], p[1]) for p in l]
+            if m != list(l) and m[::-1] != list(l):
+                extra.append(m)
     tr += extra
     rng.shuffle(tr)
     return tr
@@ -142,7 +151,49 @@ def s04_valid(ctx):
     return res
 
 
-STREAMS = [s04_invalid, s04_valid]
+def s04_stubs(ctx):
+    """explicit gadgets with an exactly known total length: a trace ending exactly on (or crossing) a host close to the host's tip,
+    so that the host's last branch is a stub of 1.05..3 x snap -- longer than the documented minimum branch length (1.01 x snap)"""
+    import_fractopo()
+    from shapely.geometry import box
+
+    res = StreamResult("S04-stubs", rule="host + a trace abutting / crossing it at 1.05..3 x snap from the host's tip, 8 lattice symmetries + generic rotations, "
+                       "thresholds 0.1/0.01/0.001: every stub longer than 1.01 x snap must be a branch: total branch length = total trace length, exact checks of the driver; "
+                       "non-trivial = every gadget")
+    rng = rng_for(ctx.seed, "S04s")
+    cases = []
+    area = box(-500, -500, 500, 500)
+    for _ in range(budget(ctx.tier, 60, 1500)):
+        t = rng.choice([0.1, 0.01, 0.001])
+        s_ = rng.choice([1.05, 1.2, 1.5, 1.9, 2.005, 2.5, 3.0]) * t
+        L = rng.choice([8.0, 16.0, 40.0])
+        cross = rng.random() < 0.4
+        host = [(0.0, 0.0), (L, 0.0)]
+        other = [(L - s_, -7.0 if cross else 0.0), (L - s_ + rng.choice([0.0, 2.0, -3.0]), 9.0)]
+        if cross:
+            other = [(L - s_, -7.0), (L - s_, 9.0)]
+        if rng.random() < 0.5:
+            c_, s2 = rng.choice([(1, 0), (0, 1), (-1, 0), (0, -1)])
+        else:
+            a = rng.uniform(0, 2 * math.pi)
+            c_, s2 = math.cos(a), math.sin(a)
+        if not (c_ in (0, 1, -1)) and not cross:
+            # generic rotation makes the abutment inexact: use a crossing instead (exact contacts are not needed for a crossing)
+            other = [(L - s_, -7.0), (L - s_, 9.0)]
+        mir = rng.choice([1, -1])
+        ox, oy = rng.choice([0.0, 100.0, -250.5]), rng.choice([0.0, 33.25])
+        def tf(p):
+            x, y = p[0], p[1] * mir
+            return (ox + c_ * x - s2 * y, oy + s2 * x + c_ * y)
+        tr = [[tf(p) for p in host], [tf(p) for p in other]]
+        rng.shuffle(tr)
+        cases.append({"stream": "S04-stubs", "traces": tr, "area_wkts": [area.wkt], "areas": area_rows([area]), "t": t, "kind": f"stub_{'x' if cross else 'y'}", "valid": True,
+                      "stub_over_t": s_ / t})
+    judge(ctx, cases, res, "S04-stubs")
+    return res
+
+
+STREAMS = [s04_invalid, s04_valid, s04_stubs]
 
 
 def replay(ctx, stream, case):
